@@ -42,3 +42,26 @@ Theorem C18_rk4_counts :
     naccpt (Rk4.r_stats r) = nstep (Rk4.r_stats r).
 Proof. exact @Rk4Counters.solve_counted. Qed.
 Print Assumptions C18_rk4_counts.
+
+(* Radau and BDF: additionally njev = number of logged Jacobian evaluations.  `jacf` is an arbitrary function: the
+   right-hand-side calls a finite-difference Jacobian makes happen inside it and are, as the property demands, not
+   part of nfev (the replay compares them separately through the recording IVP). *)
+Require IVP.model.Radau IVP.model.Bdf IVP.proofs.RadauCounters IVP.proofs.BdfCounters.
+
+Theorem C18_radau_counts :
+  forall (F : Type) (O : Ops F) (H : Type) (P : Radau.params) f jacf mass x0 y0 xend rtol atol
+         (cb : H -> F -> F -> list F -> option (list F * F * F) -> H * flag F * list F) cb0 fuel r,
+    Radau.solve O P f jacf mass x0 y0 xend rtol atol cb cb0 fuel = Some r ->
+    nfev (Radau.r_stats r) = N.of_nat (length (Radau.r_log r)) /\
+    njev (Radau.r_stats r) = N.of_nat (length (Radau.r_jaclog r)).
+Proof. exact @RadauCounters.solve_counted. Qed.
+Print Assumptions C18_radau_counts.
+
+Theorem C18_bdf_counts :
+  forall (F : Type) (O : Ops F) (H : Type) (P : Bdf.params) f jacf x0 y0 xend rtol atol
+         (cb : H -> F -> F -> list F -> option (list F * F * F) -> H * flag F * list F) cb0 fuel r,
+    Bdf.solve O P f jacf x0 y0 xend rtol atol cb cb0 fuel = Some r ->
+    nfev (Bdf.r_stats r) = N.of_nat (length (Bdf.r_log r)) /\
+    njev (Bdf.r_stats r) = N.of_nat (length (Bdf.r_jaclog r)).
+Proof. exact @BdfCounters.solve_counted. Qed.
+Print Assumptions C18_bdf_counts.
